@@ -112,9 +112,10 @@ func (m *C19) After(w *world.World, a *world.Action, r *world.StepResult) *Viola
 			_, hasChan := k.GetConsumerIdToChannelId(ctx, id)
 			pending := len(k.GetPendingVSCPackets(ctx, id))
 			stoppedNow := ph == world.PhStopped && !touched(r, id)
-			if stoppedNow || (ph == world.PhLaunched && hasChan && pending > 0) {
+			_, _ = hasChan, pending // queued packets may also stay behind because a client expired by itself
+			if stoppedNow {
 				victims++
-				if w.LastFault == "send:channel.SendPacket.inactive" && stoppedNow {
+				if w.LastFault == "send:channel.SendPacket.inactive" {
 					return violf(P, "inactive-client-stopped-consumer", "consumer %s was stopped although sending failed only because its client is not active", id)
 				}
 			}
